@@ -33,6 +33,20 @@ Definition py_pop_ {A} (l : list A) : res (list A) :=
 (* an Optional[int] used where an int is needed (arithmetic, argument): TypeError when it is None *)
 Definition py_unwrap {A} (o : option A) : res A := match o with Some v => Ok v | None => Err EOther end.
 
+(* while c: body  on explicit fuel: Err EFuel when the fuel runs out while the condition still holds;
+   the body returns the new state and whether it executed `break` *)
+Fixpoint while_m {S} (fuel : nat) (cond : S -> bool) (body : S -> res (S * bool)) (s : S) : res S :=
+  if cond s then
+    match fuel with
+    | O => Err EFuel
+    | Datatypes.S f => match body s with
+             | Err e => Err e
+             | Ok (s', true) => Ok s'
+             | Ok (s', false) => while_m f cond body s'
+             end
+    end
+  else Ok s.
+
 (* ---------------------------------------------------------------- lemmas *)
 Lemma py_str_eqb_eq a : forall b, py_str_eqb a b = true <-> a = b.
 Proof.
